@@ -15,6 +15,7 @@ pub mod c20;
 pub mod e3;
 pub mod e4;
 pub mod e7;
+pub mod hist;
 pub mod mapmodel;
 
 pub fn run(id: &str, tier: Tier) -> i32 {
@@ -106,6 +107,16 @@ pub fn replay(id: &str, path: &str) -> i32 {
 
 pub fn internal(cmd: &str, args: &[String]) -> i32 {
     match cmd {
+        "recheck-one" => {
+            // `pgmc recheck-one <ID> <case.json>`: print one "SIG <sig>" line per reproduced signature
+            let id = args.first().map(|s| s.as_str()).unwrap_or("");
+            let txt = std::fs::read_to_string(args.get(1).map(|s| s.as_str()).unwrap_or("")).unwrap_or_default();
+            let case: Value = serde_json::from_str(&txt).unwrap_or(Value::Null);
+            for s in recheck(id, &case) {
+                println!("SIG {}", s);
+            }
+            0
+        }
         "scale-probe" => c13::scale_probe(args),
         "c14-worker" => e7::c14_worker(args),
         "c14-one" => e7::c14_one(args),
